@@ -111,8 +111,11 @@ class World:
             return ('future', 'sleep')
         if name.startswith('core::time::Duration::') and seg.startswith('from_'):
             return ('opaque', 'duration')
+        if name.startswith('tracing::instrument::') and seg in ('instrument', 'in_current_span', 'or_current', 'with_subscriber', 'with_current_subscriber') and args:
+            return args[0]           # (#[instrument] on an async fn: the instrumented future IS the future)
         if name.startswith('tracing') or name.startswith('log::') or '::__macro_support' in name or name.startswith('tracing_core'):
-            return ('bool', False) if body.local_ty(t['dest']['l']) == 'bool' else ('opaque', 'tracing')
+            ty_ = body.local_ty(t['dest']['l'])
+            return ('bool', False) if ty_ == 'bool' else (('ref', Cell(('opaque', 'tracing'))) if ty_.startswith('&') else ('opaque', 'tracing'))
         if name == 'core::mem::drop' or name.startswith('core::ptr::drop_in_place'):
             return UNIT
         if name in ('core::future::ready::ready', 'core::future::ready', 'futures_util::future::ready::ready', 'futures_util::future::ready') and args:
